@@ -99,7 +99,9 @@ def observe(mp, c, trace, hist):
 
 
 WIDE = [dict(fam="SN", ne=True, avoid=True, width=None), dict(fam="SN", ne=True, avoid=False, width=None, min_prob_norm=0.1),
-        dict(fam="S", ne=True, avoid=True, width=None, max_dist=2.5), dict(fam="D", ne=True, avoid=True, width=None, min_prob_norm=0.1)]
+        dict(fam="S", ne=True, avoid=True, width=None, max_dist=2.5), dict(fam="D", ne=True, avoid=True, width=None, min_prob_norm=0.1),
+        dict(fam="S", ne=True, avoid=True, width=2, max_dist=2.5), dict(fam="D", ne=True, avoid=True, width=3, max_dist=2.5),
+        dict(fam="S", ne=True, avoid=True, width=3, max_dist=0.5), dict(fam="D", ne=True, avoid=True, width=2, max_dist=0.5)]
 
 
 def run_case(case):
